@@ -458,7 +458,7 @@ func (g *gen) loopStmt(depth int) []Stmt {
 func (g *gen) stepFn(t *Type) *Func {
 	x := &Var{Name: g.name("p"), Kind: VParam, T: t}
 	f := &Func{Name: g.name("step_"), Params: []*Var{x}, Ret: t}
-	if g.chance(50, "stepglobal") && !g.f.off("private-var") {
+	if g.chance(50, "stepglobal") && !g.f.off("step-helper.own-global") {
 		// the helper is also the only code that names a module-scope variable of its own
 		// (interface lists, per-entry-point reachability, pass-through arguments)
 		g.class("step-helper:own-global")
